@@ -14,9 +14,11 @@ from .frontend import AnalysisBroken
 # another T (seeded change C10-selector-default-type)
 INSTANTIATIONS_QUICK = [
     ('float', 'std::mt19937'),
+    # long double: conversions to a narrower floating type (e.g. an unqualified sqrt that resolves to
+    # ::sqrt(double)) only exist in this instantiation (seeded change C13-sqrt-double-overload)
+    ('long double', 'std::mt19937_64'),
 ]
 INSTANTIATIONS_THOROUGH = [
-    ('long double', 'std::mt19937_64'),
     ('double', 'std::minstd_rand'),
     ('double', 'std::ranlux48'),
     ('float', 'std::knuth_b'),
